@@ -20,6 +20,7 @@ EXPLANATION = (
     "set, complete regex => len >= 2, scriptlet args valid, ...); (4) no allocation sized by a length "
     "declared in the input: no with_capacity / reserve in data_format whose argument derives from a serde "
     "size_hint (serde's own cautious size hint caps pre-allocation)."
+    ' Later additions: every rmp-serde entry point used by the crate is slice-backed (the reader-backed decoder sizes its buffer by a declared length before reading it: rmp-serde 0.15.x pinned in Cargo.lock as a checked assumption); the v0 decoder is entered only with the magic prefix present and the version byte present and zero (the caller-side half of its A7 discharge).'
 )
 NOT_DECIDED = ("Allocation behaviour inside rmp-serde / serde (dependencies) beyond the reviewed entry points: the "
                "slice-backed decoder bounds every str/bin by the remaining input, serde's collection visitors cap their "
